@@ -64,6 +64,7 @@ type GenesisKnobs struct {
 	AllMax           bool // every validator at MAX_EFFECTIVE_BALANCE
 	Eth1Share        int  // percent with ETH1 credentials
 	AboveShare       int  // percent with balance above max
+	AboveBoost       int  // further increments on top for those (balance far above the effective balance cap)
 	BelowShare       int  // percent below max (inactive at genesis)
 	ForceKickstart   bool // the chain's own genesis comes from KickStartState
 	SameMultiset     bool // exactly 16 or 32 validators, all at the maximum (with AllMax)
@@ -108,7 +109,7 @@ func MakeGenesisPlan(r *hx.Rng, sp *common.Spec, k GenesisKnobs) *GenesisPlan {
 		if !k.AllMax {
 			switch {
 			case r.Chance(k.AboveShare):
-				v.Balance = sp.MAX_EFFECTIVE_BALANCE + common.Gwei(1+r.Intn(4000))*inc/1000
+				v.Balance = sp.MAX_EFFECTIVE_BALANCE + common.Gwei(1+r.Intn(4000))*inc/1000 + common.Gwei(k.AboveBoost)*inc
 			case r.Chance(k.BelowShare):
 				v.Balance = sp.MAX_EFFECTIVE_BALANCE - common.Gwei(1+r.Intn(16000))*inc/1000
 			}
